@@ -201,7 +201,7 @@ def run_case(ctx, case):
 
 def _foreign():
     from ref import address as raddr
-    return raddr.addr_p2pkh(b'\x42' * 20, NET)
+    return raddr.addr_p2pkh(bytes(range(0x80, 0x94)), NET)
 
 
 def _judge(ctx, case, t, signed, m, spk, amount, where, flags, kf=None):
